@@ -253,21 +253,21 @@ Definition delete_edge_at_epoch (st : state) (id e : Z) : state * bool :=
                (bwd st) (upd (bwd_del st) dst (addz id (bwd_del st dst))), true)
   else (st, false).
 
-Inductive dir := Out | In | Both.
+Inductive dir := Out | Inc | Both.
 Definition adj_live (l : list (Z * Z)) (del : list Z) : list (Z * Z) :=
   filter (fun p => negb (memz (snd p) del)) l.
 (** [edges_from(node, direction)]: forward entries, then backward entries; tombstones filtered *)
 Definition edges_from (st : state) (n : Z) (d : dir) : list (Z * Z) :=
   match d with
   | Out => adj_live (fwd st n) (fwd_del st n)
-  | In => adj_live (bwd st n) (bwd_del st n)
+  | Inc => adj_live (bwd st n) (bwd_del st n)
   | Both => adj_live (fwd st n) (fwd_del st n) ++ adj_live (bwd st n) (bwd_del st n)
   end.
 
 (** [delete_node_edges] (DETACH): every adjacent edge through [delete_edge] = at the store's own epoch *)
 Definition delete_node_edges (st : state) (n : Z) : state :=
   fold_left (fun s p => fst (delete_edge_at_epoch s (snd p) (st_epoch s)))
-            (edges_from st n Out ++ edges_from st n In) st.
+            (edges_from st n Out ++ edges_from st n Inc) st.
 
 Definition edge_count (st : state) : Z :=
   Z.of_nat (length (filter (fun e => c_visible_at (e_chain st e) (st_epoch st)) (range (e_next st)))).
@@ -316,7 +316,7 @@ Inductive kind :=
 | GetNode (n : Z)                   (* Session::get_node *)
 | GetEdge (e : Z)                   (* Session::get_edge *)
 | GetProp (n k : Z)                 (* Session::get_node_property *)
-| Neigh (n : Z) (d : dir)           (* Session::get_neighbors_outgoing / incoming (d = Out | In) *)
+| Neigh (n : Z) (d : dir)           (* Session::get_neighbors_outgoing / incoming (d = Out | Inc) *)
 | Degree (n : Z)                    (* Session::get_degree *)
 | TripleQ (p : pattern)             (* SPARQL SELECT over one triple pattern *)
 | TripleApi (p : pattern)           (* RdfStore::find_with_pending(p, the session's transaction) *)
@@ -399,7 +399,7 @@ Definition read (st : state) (s : Z) (k : kind) : out :=
   | GetEdge x => OEdge (get_edge_versioned st x e t)
   | GetProp n k => OVal (match get_node_versioned st n e t with Some (_, ps) => pget k ps | None => None end)
   | Neigh n d => OPairs (edges_from st n d)       (* raw adjacency, no visibility check *)
-  | Degree n => ODeg (Z.of_nat (length (edges_from st n Out))) (Z.of_nat (length (edges_from st n In)))
+  | Degree n => ODeg (Z.of_nat (length (edges_from st n Out))) (Z.of_nat (length (edges_from st n Inc)))
   | TripleQ p => OTriples (rdf_find (rdf st) p)   (* RdfTripleScanOperator: store.find, pending ops ignored *)
   | TripleApi p => OTriples (find_with_pending st p (sess st s))
   | DbCounts => OCounts (node_count st) (edge_count st)
